@@ -116,6 +116,9 @@ impl Crdt for OR {
         s.reset_remove(c);
         Some(())
     }
+    fn own_clock(s: &OS) -> Option<Clock> {
+        Some(s.read().add_clock)
+    }
     fn eq(a: &OS, b: &OS) -> Option<bool> {
         Some(a == b)
     }
